@@ -13,7 +13,7 @@ from collections import Counter
 import numpy as np
 
 from ..core import choice, draw_cfg
-from ..oracles import compare_restart
+from ..oracles import DOCUMENTED_MESSAGES, MSG_ITER, compare_restart
 from ..problems import FAMILIES, build_problem, draw_problem_spec
 from ..world import Act, Store, snapshot, snap_diff, snap_bytes
 
@@ -60,6 +60,10 @@ def gen(rng, tier, index):
     K = int(rng.integers(2, 10)) if tier == "quick" else int(rng.integers(2, 22))
     cfg["maxiter"] = K
     n_ev = 10 if tier == "quick" else 40
+    if rng.random() < 0.2 and cfg["jac"] == "callable":
+        # the evaluation budget runs out during the explored run (inside a line search, usually):
+        # the iteration in progress is completed and must be reported like any other
+        cfg["maxfun"] = int(rng.integers(3, 40))
     plan = {
         "problem": spec,
         "cfg": cfg,
@@ -128,6 +132,28 @@ def execute(plan):
     stats["fault.scribble_xk"] += S.fired["scribble_xk"]
     if S.result_digest() != A.result_digest():
         add("callback_arg_isolated", {"with": A.result_digest()[:16], "scribbled": S.result_digest()[:16]})
+    else:
+        # ... nor the states the user keeps (the array handed over as xk is the user's to overwrite)
+        for rec in S.states:
+            bad = snap_diff(rec["snap"], snapshot(rec["live"]), fields=("x", "fun", "jac", "nfev", "njev", "nit", "sk", "yk"))
+            if bad:
+                add("snapshot.mutated_after_callback", {"k": int(rec["snap"]["nit"]), "fields": bad, "by": "the callback overwriting its xk argument"})
+                break
+    # every completed iteration is reported: a run that ends on a budget tested at the top of the
+    # loop (iterations, evaluations) after a successful line search has told the callback about it
+    # (with ftol = 0 and no target no stop test can end the last iteration before its callback)
+    if (
+        A.result is not None
+        and str(A.result.message) in (MSG_ITER, DOCUMENTED_MESSAGES[4])
+        and A.ls_log
+        and A.ls_log[-1][2] is not None
+        and float(cfg.get("ftol", 0.0)) == 0.0
+        and cfg.get("ftarget") is None
+    ):
+        stats["or.last_iteration_reported"] += 1
+        last = A.states[-1]["snap"] if A.states else None
+        if last is None or int(last["nit"]) != int(A.result.nit) or not np.array_equal(last["x"], np.asarray(A.result.x)):
+            add("last_iteration_not_reported", {"result_nit": int(A.result.nit), "last_state_nit": None if last is None else int(last["nit"]), "message": str(A.result.message), "maxfun": int(cfg.get("maxfun", 15000))})
 
     # ---- uninterrupted references R_k
     R = {}
